@@ -77,6 +77,28 @@ def run(ctx):
     paths = handler_paths(model, h)
     if not paths:
         raise AnalysisError("no paths for the allocate handler")
+    # anchors by role: the claim operation is what the claim handler calls on
+    # the namespace; the allocator is what the allocate handler calls
+    CLAIM = None
+    hc = handler_for(model, "claim")
+    for p in handler_paths(model, hc):
+        for e, _ in all_events(p, ("call",)):
+            if e["func"] == "WebSocketServer." + hc and e["callee"].startswith("AppNamespace."):
+                CLAIM = e["callee"]
+                break
+        if CLAIM:
+            break
+    ALLOC = None
+    for p in paths:
+        for e, _ in all_events(p, ("call",)):
+            if e["func"] == "WebSocketServer." + h and e["callee"].startswith("AppNamespace."):
+                ALLOC = e["callee"]
+                break
+        if ALLOC:
+            break
+    if CLAIM is None or ALLOC is None:
+        raise AnalysisError("R04: cannot find the claim / allocate operations of the "
+                            "namespace from their handlers")
     # locate the finder: the callee of the allocator that returns the candidate
     nsrc = 0
     nret = 0
@@ -86,7 +108,7 @@ def run(ctx):
         evs = [e for e, _ in all_events(p)]
         claim_call = None
         for e in evs:
-            if e["k"] == "call" and e["callee"] == "AppNamespace.claim_nameplate":
+            if e["k"] == "call" and e["callee"] == CLAIM:
                 claim_call = e
         # in-use set: last select on nameplates before the claim
         sel = None
@@ -95,7 +117,7 @@ def run(ctx):
                 break
             if e["k"] == "sql" and e["stmt"].kind == "select" and e["stmt"].table == "nameplates":
                 sel = e
-        if not any(e["k"] == "call" and e["callee"] == "AppNamespace.allocate_nameplate"
+        if not any(e["k"] == "call" and e["callee"] == ALLOC
                    for e in evs):
             continue  # refused before allocating (validation error)
         if sel is None:
@@ -173,7 +195,7 @@ def run(ctx):
         for e in evs:
             if e["k"] == "send" and frame_type(e) == "allocated":
                 ff = frame_fields(e) or {}
-                after = any(x["k"] == "ret" and x["callee"] == "AppNamespace.claim_nameplate"
+                after = any(x["k"] == "ret" and x["callee"] == CLAIM
                             for x in evs[:evs.index(e)])
                 okf = after and plain(ff.get("nameplate", ("const", None))) == c
                 ctx.ob("R04.hold", "%s: allocated frame carries the claimed id, after the "
@@ -193,7 +215,7 @@ def run(ctx):
     for p in paths:
         evs = [e for e, _ in all_events(p)]
         sent = any(e["k"] == "send" and frame_type(e) == "allocated" for e in evs)
-        claimed = any(e["k"] == "ret" and e["callee"] == "AppNamespace.claim_nameplate"
+        claimed = any(e["k"] == "ret" and e["callee"] == CLAIM
                       for e in evs)
         if sent:
             ctx.ob("R04.hold", "%s: every answered allocate claimed first" % h, claimed,
